@@ -200,15 +200,26 @@ def c14_c(ctx: Ctx):
     out = []
     rec = [c for c in body_nodes(fi) if isinstance(c, ast.Call) and isinstance(c.func, ast.Name) and c.func.id == "self"]
     if not rec:
+        # the descent may live in a self-recursive helper method of the same class (a generator that yields the differing items)
+        cls_q = BYKEY.rsplit(".", 1)[0]
+        for g in ctx.prog.funcs.values():
+            if g.qual.startswith(cls_q + ".") and g.qual != BYKEY and ".<locals>." not in g.qual[len(cls_q):]:
+                own = [c for c in body_nodes(g) if isinstance(c, ast.Call) and isinstance(c.func, ast.Attribute) and c.func.attr == g.name
+                       and isinstance(c.func.value, ast.Name) and c.func.value.id == "self"]
+                if own and len(g.params) >= 4:
+                    fi, rec = g, own
+                    break
+    if not rec:
         return [ctx.inc(R, fi, fi.node, "no recursive self(...) call in ByKey.__call__")]
+    rootp = fi.params[3] if len(fi.params) > 3 else "root"
     for c in rec:
-        r = kwarg(c, "root") or (c.args[2] if len(c.args) > 2 else None)
+        r = kwarg(c, rootp) or (c.args[2] if len(c.args) > 2 else None)
         if r is None:
             out.append(ctx.viol(R, fi, c, "the recursive call does not pass a root: nested conflicts are reported / decided by their last component only"))
             continue
         ns = names_in(common.inline_at(ctx, fi, r, c))
         knames = {x for n in body_nodes(fi) if isinstance(n, ast.For) and canon(n.iter).startswith("src") for x in common.target_names(n.target)[:1]}
-        if "root" in ns and (ns & knames):
+        if rootp in ns and (ns & knames):
             out.append(ctx.ok(R, fi, c, f"recursion passes root={canon(r)}"))
         else:
             out.append(ctx.viol(R, fi, c, f"recursion passes root={canon(r)}, which drops the accumulated prefix: at depth >= 3 the key strategy is asked about 'b.c' instead of 'a.b.c'"))
